@@ -7,6 +7,7 @@ import (
 var _ interface {
 	FS
 	MountFS
+	RenameFS
 } = &subFS{}
 
 type subFS struct {
@@ -38,4 +39,22 @@ func (fs *subFS) Mount(p string) (mount FS, subPath string) {
 		return fs.rootFS, p
 	}
 	return fs.rootFS, path.Join(fs.basePath, p)
+}
+
+func (fs *subFS) Rename(oldname, newname string) error {
+	if !ValidPath(oldname) || !ValidPath(newname) {
+		return &LinkError{Op: "rename", Old: oldname, New: newname, Err: ErrInvalid}
+	}
+	_, oldSubPath := fs.Mount(oldname)
+	_, newSubPath := fs.Mount(newname)
+	err := Rename(fs.rootFS, oldSubPath, newSubPath)
+	if linkErr, ok := err.(*LinkError); ok {
+		err = &LinkError{
+			Op:  linkErr.Op,
+			Old: callerPath(linkErr.Old, oldname, oldSubPath),
+			New: callerPath(linkErr.New, newname, newSubPath),
+			Err: linkErr.Err,
+		}
+	}
+	return err
 }
